@@ -32,6 +32,10 @@ def model_circuits():
         yield k, c, []
     for k, c in deep_circuits():
         yield k, c, []
+    from ..corpus import corpus
+
+    for k, tags, c in corpus("quick"):
+        yield f"corpus::{k}", c, []
     yield "const-output", build({"a": ("input", []), "k": ("1", []), "z": ("0", []), "g": ("and", ["a", "k"])}, outputs=["k", "g", "z"], name="co"), []
     yield "x-constant", build({"a": ("input", []), "u": ("x", []), "g": ("or", ["a", "u"])}, outputs=["g"], name="xc"), []
     yield "undriven-gate", build({"a": ("input", []), "f": ("buf", []), "g": ("nand", ["a", "f"])}, outputs=["g"], name="ud"), []
